@@ -407,7 +407,8 @@ func (se *SessionExecutor) handleSetVariable(reqCtx *util.RequestContext, sql st
 			return nil
 		}
 
-		if err := se.sessionVariables.Set(name, charset); err != nil {
+		// an expression has no string value the proxy knows: verifyString refuses it
+		if err := se.sessionVariables.Set(name, getStringVariableExprResult(v.Value)); err != nil {
 			return err
 		}
 
@@ -526,7 +527,7 @@ func (se *SessionExecutor) handleSetVariable(reqCtx *util.RequestContext, sql st
 				value := getVariableExprResult(v.Value)
 				return se.setIntSessionVariable(name, value)
 			case "string":
-				value := getVariableExprResult(v.Value)
+				value := getStringVariableExprResult(v.Value)
 				return se.setStringSessionVariable(name, value)
 			case "bool":
 				value := getVariableExprResult(v.Value)
